@@ -1,6 +1,7 @@
 package main
 
 import (
+	"strings"
 	"encoding/json"
 	"fmt"
 
@@ -216,8 +217,71 @@ func c09Explore(b *px.Built, r *px.Runner, fam string, idx int64, prm c09Params,
 	b.Install(r.C)
 	r.NStates = len(b.Actions)
 	r.ResetCounts()
+	// Third pass: what an action returns is the user's business. With every
+	// (every other) generic action returning an Error value or a Token value of
+	// its own making, the verdict, the reductions and the Errors delivered to
+	// @error terms must be what they are with any other result.
+	errName := b.TermNames[1]
+	sig := func(o *px.Outcome) string {
+		var sb strings.Builder
+		fmt.Fprintf(&sb, "ok=%v", o.OK)
+		for _, e := range o.Events {
+			if e.Kind != ctypes.EvReduce {
+				continue
+			}
+			fmt.Fprintf(&sb, " r%d", e.Prod)
+			for i, k := range e.N.Kids {
+				if i < len(b.ProdTerms[e.Prod]) && b.ProdTerms[e.Prod][i] == errName {
+					if tok, _, ok := r.C.AsError(k); ok {
+						fmt.Fprintf(&sb, "(err#%d)", tok.Idx)
+					} else {
+						fmt.Fprintf(&sb, "(%T)", k)
+					}
+				}
+			}
+		}
+		return sb.String()
+	}
+	kindName := map[int]string{2: "a Token value", 3: "an Error value"}
+	typedCheck := func(w []int) {
+		if len(x.out) > 0 {
+			return
+		}
+		ref := r.Run(w)
+		if ref.Panic != "" || ref.Hang != "" || ref.Incon {
+			return
+		}
+		for _, kind := range []int{3, 2} {
+			for mode, sel := range []func(p int32) bool{func(int32) bool { return true }, func(p int32) bool { return p%2 == 1 }} {
+				kind, sel := kind, sel
+				r.ResKind = func(p int32) int {
+					if sel(p) {
+						return kind
+					}
+					return 0
+				}
+				o := r.Run(w)
+				r.ResKind = nil
+				st.Evaluations++
+				st.Add("runs_with_typed_results", 1)
+				switch {
+				case o.Panic != "":
+					x.report("C09", "parser-panic-with-typed-results", w, fmt.Sprintf("with actions returning %s (mode %d): %s", kindName[kind], mode, o.Panic), "")
+				case o.Hang != "":
+					x.report("C09", "parser-hang-with-typed-results", w, fmt.Sprintf("with actions returning %s (mode %d): %s", kindName[kind], mode, o.Hang), "")
+				case o.Incon:
+					st.Inconcl++
+				default:
+					if a, b := sig(ref), sig(o); a != b {
+						x.report("C09", "result-type-dependent-recovery", w, fmt.Sprintf("with actions returning %s (mode %d) the parse is {%s}; with other results it is {%s}", kindName[kind], mode, b, a), "")
+					}
+				}
+			}
+		}
+	}
 	if only != nil {
 		x.check(only)
+		typedCheck(only)
 		return x.out
 	}
 	alphabet := []int{loxERROR}
@@ -274,6 +338,7 @@ func c09Explore(b *px.Built, r *px.Runner, fam string, idx int64, prm c09Params,
 			}
 		})
 	}
+	forStrings(alphabet, prm.L-1, typedCheck)
 	st.States += int64(len(r.Configs))
 	st.Transitions += r.Steps
 	return x.out
